@@ -4,6 +4,7 @@
 Monitor: the enter/leave/raise trace emitted by harness-supplied middleware, endpoint and render
 functions, compared event by event with the reference onion (models/di.py: merge rule +
 interpreter) under one scripted deviation per case."""
+import copy
 from ..common import Rng
 from .. import gen_di
 from ._di_common import drive, replay_cfg
@@ -18,7 +19,7 @@ RULE = ('cases are accepted middleware stacks (0-5 middlewares over application 
         'distinct by hash of configuration + deviation')
 ASSUMPTIONS = ['at most one instance of a unique middleware type inside any single list (O5)',
                'exceptions are plain Exception subclasses raised by the spies; the application re-raises uncaught errors']
-REQUIRED_REACH = ['constructed', 'requests-on-accepted', 'beh:raise_before', 'beh:raise_after', 'beh:short', 'beh:swallow',
+REQUIRED_REACH = ['same-instance-across-levels', 'same-class-name-across-levels', 'constructed', 'requests-on-accepted', 'beh:raise_before', 'beh:raise_after', 'beh:short', 'beh:swallow',
                   'beh:replace', 'beh:short_ctx', 'beh:ep-resp', 'beh:ep-raise', 'beh:rn-raise', 'levels:2', 'levels:3',
                   'dup-unique-across-levels', 'nonreorderable-dup', 'phase-seen:request', 'phase-seen:endpoint',
                   'phase-seen:render', 'sibling-routes-with-own-middlewares', 'flavour:base', 'flavour:http', 'raises-http-exception', 'subclass-across-levels']
@@ -45,7 +46,25 @@ def retype(rng, cfg, sh):
     (i1, m1), (i2, m2) = rng.sample(flat, 2)
     if i1 == i2:
         return
-    mode = rng.pick(['unique', 'unique', 'nonunique', 'nonreorderable', 'subclass', 'subclass'])
+    mode = rng.pick(['unique', 'unique', 'nonunique', 'nonreorderable', 'subclass', 'subclass', 'same-instance', 'same-class-name'])
+    if mode == 'same-class-name':
+        # two unrelated types that happen to carry the same class name: different types, both stay
+        m2['clsname'] = m1['type']
+        sh.hit('same-class-name-across-levels')
+        return
+    if mode == 'same-instance':
+        # the very same object of a non-unique type included at two levels: two layers running the same functions
+        keep = dict(m2)
+        m2.clear()
+        m2.update(copy.deepcopy(m1))
+        m2['alias_of'] = m1['mid']
+        m2['mid'] = keep['mid']
+        for m in (m1, m2):
+            m['unique'] = False
+            for a in ('provides', 'endpoint_provides', 'render_provides'):
+                m[a] = []
+        sh.hit('same-instance-across-levels')
+        return
     if mode == 'subclass':
         # one type derives from the other: different types, both stay (whichever level carries the subclass)
         sub, base = (m1, m2) if rng.chance(0.5) else (m2, m1)
